@@ -379,24 +379,40 @@ def check_consumer(prog: Program, res: Result) -> None:
         for c in astq.method_calls(inner, "append"):
             if isinstance(c.func.value, ast.Name) and c.args and item in astq.names_in(c.args[0]) and "image" in norm(c.args[0]):
                 img_lists.add(c.func.value.id)
-        outer_guard = guards[-1] if guards else None
-        ok = outer_guard is not None and isinstance(outer_guard.test, ast.Name) and outer_guard.test.id in img_lists
-        res.ob("C13-cons", ok, fi.qualname, "batch block guarded only by `if <list of images>`",
-               f"the batch block is guarded by `{short(outer_guard.test) if outer_guard else 'nothing'}`, not by the "
-               "non-emptiness of the image list: a partial last batch may be dropped", f"{fi.module.relpath}:{call.lineno}")
-        if outer_guard is not None:
-            gn = cfg.nodes_of(outer_guard)
-            w = cfg.must_pass(true_succ, [cfg.exit], gn)
-            res.ob("C13-cons", w is None, fi.qualname, "marker branch still reaches the batch block (partial batch flushed)",
-                   f"after the end-of-stream marker a path leaves without processing the partial batch: {cfg.path_str(w) if w else ''}",
-                   f"{fi.module.relpath}:{test.lineno}", sample={"guard": short(outer_guard.test), "cfg": cfg.stats()})
-            # between the guard and the inference call nothing can skip the call (no continue/break/return)
-            cn = cfg.stmt_nodes_containing(call)
-            t_succ = [m for t in gn for m in cfg.g.successors(t) if "true" in cfg.g[t][m]["labels"]]
-            w = cfg.must_pass(t_succ, cfg.nodes_of(outer) + [cfg.exit], cn)
-            res.ob("C13-cons", w is None, fi.qualname, "a non-empty batch always reaches the inference call",
-                   f"a non-empty batch can skip the inference call: {cfg.path_str(w) if w else ''}", f"{fi.module.relpath}:{call.lineno}")
-    # the batch loop takes at most batch_size items and each iteration appends exactly once -> see C12-align
+        # Once the batch loop is left, the batch is processed unless the list of images is EMPTY: with the edges taken
+        # only for an empty image list removed (false edge of `if imgs`, true edge of `if not imgs` / `len(imgs) == 0`),
+        # every path from the batch loop to the next stream-loop test, or out of the function, runs the inference call.
+        def _empty_edge(test: ast.AST):
+            """label of the edge taken when the image list is empty, or None if `test` is not an emptiness test."""
+            t, neg = test, False
+            if isinstance(t, ast.UnaryOp) and isinstance(t.op, ast.Not):
+                t, neg = t.operand, True
+            if isinstance(t, ast.Name) and t.id in img_lists:
+                return "true" if neg else "false"
+            if isinstance(t, ast.Compare) and len(t.ops) == 1 and isinstance(t.left, ast.Call) and norm(t.left.func) == "len" and t.left.args \
+                    and norm(t.left.args[0]) in img_lists and astq.const_value(t.comparators[0]) == 0:
+                if isinstance(t.ops[0], (ast.Gt, ast.NotEq)):
+                    return "true" if neg else "false"
+                if isinstance(t.ops[0], ast.Eq):
+                    return "false" if neg else "true"
+            return None
+
+        empties = {}
+        for n_ in walk_function(fn):
+            if isinstance(n_, ast.If) and astq.in_body_of(n_, outer, "body") and not astq.in_body_of(n_, inner, "body"):
+                lab = _empty_edge(n_.test)
+                if lab is not None:
+                    for tn in cfg.nodes_of(n_):
+                        empties[tn] = lab
+        cn = set(cfg.stmt_nodes_containing(call))
+        inner_heads = cfg.nodes_of(inner)
+        outer_heads = cfg.nodes_of(outer)
+        w = cfg.must_pass(inner_heads, list(outer_heads) + [cfg.exit], cn,
+                          drop_edge=lambda a_, b_, labels: "exc" in labels or (a_ in empties and empties[a_] in labels))
+        res.ob("C13-cons", w is None, fi.qualname, "after the batch loop the batch is processed unless the image list is empty",
+               f"a path leaves the batch loop and reaches the next stream-loop test without running the model although images were read "
+               f"(a partial last batch may be dropped): {cfg.path_str(w) if w else ''}", f"{fi.module.relpath}:{call.lineno}")
+        res.ob("C13-cons", bool(empties), fi.qualname, "the batch block is skipped only for an empty batch", "no emptiness guard on the image list", fi.where)
     # batch loop is a for over range(batch_size)
     ok = isinstance(inner, ast.For) and isinstance(inner.iter, ast.Call) and norm(inner.iter.func) == "range" and len(inner.iter.args) == 1
     res.ob("C13-cons", ok, fi.qualname, "batch loop is `for _ in range(batch_size)`",
